@@ -319,6 +319,20 @@ func (e *Exec) monitorOrder(j *Judgement, events []*world.Event) {
 			}
 		}
 	}
+	// the target controller asks for a connection to every target entity of the topology (and never for a
+	// disconnection while the entity exists); judged for the current incarnation, whose watchers replay the topology
+	if inc := e.W.Cur(); inc.HasControllers() {
+		for t := range e.W.Devices {
+			cn, dn := inc.Conns.ConnectRequests(t)
+			e.C.Count("target_connection_requests_checked", 1)
+			if cn == 0 {
+				j.add("master", props, "master/connection-never-requested", "target %s exists in the topology but the target controller never asked for a connection to it", t)
+			}
+			if dn > 0 {
+				j.add("master", props, "master/disconnection-requested-for-existing-target", "target %s exists in the topology but the target controller asked %d times to disconnect from it", t, dn)
+			}
+		}
+	}
 	for t, vs := range byVersion {
 		var versions []uint64
 		for v := range vs {
